@@ -376,11 +376,13 @@ Definition run_predict (x : xval) : xval :=
   | _ => bad_input
   end.
 
-(** the harness' scenario (L ports handovers runtime seed jitter d_bind d_send d_close slow_ms nslow gap_ms eager):
-    the prediction depends only on the number of ports, of handovers and of slow requests in flight *)
+(** the harness' scenario (L ports handovers runtime seed jitter (L delay ...) slow_ms nslow gap_ms eager keep-alive both-families
+    stale-file block_ms): the prediction depends only on the number of listeners (two per port with both address families), of
+    handovers and of slow requests in flight *)
 Definition run_run (x : xval) : xval :=
   match x with
-  | XL [XN n; XN k; XN _; XN _; XN _; XN _; XN _; XN _; XN _; XN c; XN _; XN _] => run_predict (XL [XN 1; XN n; XN k; XN c])
+  | XL [XN n; XN k; XN _; XN _; XN _; XL _; XN _; XN c; XN _; XN _; XN _; XN dual; XN _; XN _] =>
+      run_predict (XL [XN 1; XN (if N.eqb dual 0 then n else 2 * n); XN k; XN c])
   | _ => bad_input
   end.
 
